@@ -1066,7 +1066,21 @@ def check_indents(ctx: Ctx) -> None:
                 o2 = origins(prog, w, c.args[2], n)
                 ok3 = o2 == frozenset({("param", p_sub)})
                 a1 = c.args[1]
-                if comp is not None:
+                tail_of = None
+                if comp is not None and isinstance(getattr(comp, "iter", None), ast.Name):
+                    # `first, *rest = segments` ... [base(s, ...) for s in rest]: the loop ranges over everything but the first segment
+                    itn = comp.iter.id
+                    for st_ in walk_no_nested(w.node):
+                        if isinstance(st_, ast.Assign) and len(st_.targets) == 1 and isinstance(st_.targets[0], (ast.Tuple, ast.List)):
+                            el_ = st_.targets[0].elts
+                            if len(el_) >= 2 and isinstance(el_[-1], ast.Starred) and isinstance(el_[-1].value, ast.Name) and el_[-1].value.id == itn \
+                                    and sum(1 for x in walk_no_nested(w.node) if isinstance(x, ast.Name) and x.id == itn and isinstance(x.ctx, ast.Store)) == 1:
+                                tail_of = st_
+                if tail_of is not None:
+                    in_loop = True
+                    ok2 = origins(prog, w, a1, n) == frozenset({("param", p_sub)})
+                    detail = "the loop ranges over the segments after the first (`first, *rest = ...`): each gets the continuation indent"
+                elif comp is not None:
                     in_loop = True
                     ok2, detail = _first_segment_indent_comp(prog, w, a1, comp, p_init, p_sub)
                 elif not in_loop:
@@ -1120,8 +1134,14 @@ def check_indents(ctx: Ctx) -> None:
                         i_, line_ = gen.target.elts[0].id, gen.target.elts[1].id
                         e_ = g_.elt
                         if isinstance(e_, ast.BinOp) and isinstance(e_.op, ast.Add) and isinstance(e_.right, ast.Name) and e_.right.id == line_ \
-                                and isinstance(e_.left, ast.IfExp) and isinstance(e_.left.test, ast.Compare) and norm(e_.left.test) in (f"{i_} == 0", f"0 == {i_}"):
-                            if from_param(e_.left.body, n, pi) and from_param(e_.left.orelse, n, ps):
+                                and isinstance(e_.left, ast.IfExp):
+                            tt = norm(e_.left.test)
+                            first_e = rest_e = None
+                            if tt in (f"{i_} == 0", f"0 == {i_}", f"not {i_}"):
+                                first_e, rest_e = e_.left.body, e_.left.orelse
+                            elif tt in (i_, f"{i_} != 0", f"{i_} > 0", f"{i_} >= 1", f"0 != {i_}"):
+                                first_e, rest_e = e_.left.orelse, e_.left.body
+                            if first_e is not None and from_param(first_e, n, pi) and from_param(rest_e, n, ps):
                                 ok1 = ok2 = True
         ctx.ob("R-LOSSLESS-L8", f"{f.qual} :: first line gets initial_indent, later lines subsequent_indent", ok1 and ok2,
                "lines[0] must be prefixed with the initial indent and lines[1:] with the subsequent indent", where(f, f.node))
